@@ -512,7 +512,7 @@ func digestChain(c *core.Ctx) (bool, string) {
 	}
 	// (3) the reader's descriptor is never reassigned
 	for _, fn := range c.P.ModuleFunctions("ociclient") {
-		if fn == nbr {
+		if fn == nbr || (nbu != nil && fn == nbu) {
 			continue
 		}
 		for _, b := range fn.Blocks {
